@@ -319,7 +319,46 @@ def longrun(r):
     return s
 
 
-GENS = {"uniform": uniform, "longrun": longrun, "iopressure": iopressure, "squares": squares, "macro": macro, "pressure": pressure, "affine": affine, "bigconst": bigconst,
+def nestuse(r):
+    """nested stationary counted loops whose inner body only *uses* values computed before the
+    outer loop, followed in the outer body by I/O and fresh arithmetic: live ranges that must
+    span the outer back edge"""
+    s = ',>,<' + r.choice([move_add(0, 1), copy_add(0, 1, 1, t=6), ''])       # cell1 (and maybe cell0) hold values
+    n_out, n_in = r.randint(1, 3), r.randint(1, 3)
+    inner = ''
+    for _ in range(r.randint(1, 3)):
+        k = r.below(5)
+        if k == 0:
+            inner += copy_add(1, 4, r.randint(1, 2), t=6)
+        elif k == 1:
+            inner += at(r.choice([0, 1]), '.')
+        elif k == 2:
+            inner += clear(5) + copy_add(1, 5, 1, t=6)
+        elif k == 3:
+            inner += copy_add(0, 4, 1, t=6)
+        else:
+            inner += at(4, '.')
+    post = ''
+    for _ in range(r.randint(1, 3)):
+        k = r.below(5)
+        if k == 0:
+            post += at(7, ',') + copy_add(7, 8, 1, t=6) + at(8, '.')
+        elif k == 1:
+            post += at(5, '.') + clear(5)
+        elif k == 2:
+            post += at(8, ',[->+>+<<]>.>.[-]<[-]<')
+        elif k == 3:
+            post += clear(4)
+        else:
+            post += at(4, '.')
+    body = addc(3, n_in) + at(3, '[' + mv(-3) + inner + mv(3) + '-]') + post
+    s += addc(2, n_out) + at(2, '[' + mv(-2) + body + mv(2) + '-]')
+    for c in (0, 1, 4, 5, 8):
+        s += at(c, '.')
+    return s
+
+
+GENS = {"uniform": uniform, "nestuse": nestuse, "longrun": longrun, "iopressure": iopressure, "squares": squares, "macro": macro, "pressure": pressure, "affine": affine, "bigconst": bigconst,
         "roam": roam, "diverge": diverge}
 
 
